@@ -228,12 +228,11 @@ def run(res, tier, seed):
         if pr:
             py_bad.append((i, pr))
         rows.append(coq_row(i, c, r))
-    body = ["Definition rows : list (nat * (cmdid -> msg) * list ev * list cmdid) := [%s]." % ";\n ".join(rows),
-            "Definition row_ok (x : nat * (cmdid -> msg) * list ev * list cmdid) : bool := let '(_, cres, log, expected) := x in "
+    rows_def = "Definition rows : list (nat * (cmdid -> msg) * list ev * list cmdid) := [%s]."
+    body = ["Definition row_ok (x : nat * (cmdid -> msg) * list ev * list cmdid) : bool := let '(_, cres, log, expected) := x in "
             "started_once log && results_once cres log && (match sub_multiset (hands log) expected with Some [] => true | _ => false end) && updates_ok log.",
             "Definition bad := map (fun x => fst (fst (fst x))) (filter (fun x => negb (row_ok x)) rows)."]
-    vals, _ = C.coq_eval("cases_C02", PRE, body, ["bad"], timeout=1500)
-    bad = C.parse_nat_list(C.parse_coq_value(vals["bad"]))
+    bad, _ = C.coq_eval_sharded("cases_C02", PRE, rows, rows_def, body, "bad", shard=100)
     res.oblige("Spec on real logs (Coq: Spec.ConcSpec.started_once / results_once; invoked = returned leaves as multisets), %d runs" % len(cases), not bad,
                [cases[i]["triggers"] for i in bad[:1]])
     res.oblige("Spec on real logs: exactly one invocation per returned command, off the loop goroutine; nil and BatchMsg never reach Update; a blocked command delays no other result nor the exit",
